@@ -193,7 +193,14 @@ def run(engine, out=None, n=200, seed=None):
     if len(cases) < 0.75 * len(lines):
         out.violation("extraction cross-check: only %d of %d generated inputs of engine %s have a mirror / an answer of the driver (%s)" % (
             len(cases), len(lines), engine, skipped), {"engine": engine, "seed": seed, "not_covered": skipped}, no_input=True)
-    compile_show(engine)
+    try:
+        compile_show(engine)
+    except RuntimeError as e:    # the mirror no longer type-checks against the model: a record or a function changed shape
+        rep = {"engine": engine, "seed": seed, "cases": len(cases), "not_covered": skipped, "ocaml_s": round(t_ocaml, 2), "coqc_s": 0.0,
+               "error": "coq/xcheck/Show_%s.v does not compile against the current model: %s" % (engine, str(e)[-1200:])}
+        out.violation("extraction cross-check: " + rep["error"][:300], {"engine": engine, "coqc": str(e)[-3000:]}, no_input=True)
+        out.cov.setdefault("extraction_crosscheck", {})[engine] = rep
+        return rep
     d = os.path.join(vlib.scratch(), "xcheck-%s-%d" % (engine, time.time_ns()))
     os.makedirs(d)
     with open(os.path.join(d, "cases.v"), "w") as f:
@@ -511,7 +518,7 @@ def gen_select(rng, n):
             if k < 5:
                 lines.append("%s\t%s\t%s" % (["select", "selectspec", "selcost", "roots", "list"][k], en, ec))
             elif k < 8:
-                lines.append("%s\t%s\t-\t%d" % (["ancestors", "descendants", "direct"][k - 5], en, i))
+                lines.append("%s\t%s\t-\t%d" % (rng.choice([["ancestors", "ancestors-paths"], ["descendants", "descendants-paths"], ["direct"]][k - 5]), en, i))
             else:
                 lines.append(c20.model_line(nodes, c20.gen_queries(rng, nodes, 1)[0]))
         g = rng.choice([sl.ladder(1 + rng.below(3), 1 + rng.below(4)), sl.chain(1 + rng.below(12)), sl.dense(2 + rng.below(7)),
@@ -547,7 +554,8 @@ def conv_select(line, st):
     c3 = {"select": "CSelect", "selectspec": "CSelectSpec", "selcost": "CSelCost", "roots": "CRoots", "list": "CList", "listq": "CListq"}
     if f[0] in c3 and len(f) == 3:
         return app(c3[f[0]], *nodes(f[1]), cfg(f[2]))
-    cg = {"ancestors": "CAncestors", "descendants": "CDescendants", "direct": "CDirect"}
+    cg = {"ancestors": "CAncestors", "descendants": "CDescendants", "direct": "CDirect", "ancestors-paths": "CAncestorsPaths",
+          "descendants-paths": "CDescendantsPaths"}
     if f[0] in cg and len(f) == 4:
         return app(cg[f[0]], nodes(f[1])[1], gn(f[3]))
     if f[0] in ("deps", "rdeps") and len(f) == 5:
@@ -779,9 +787,20 @@ def gen_loader(rng, n):
     import c16
     b, fname = c16.b, "x.grog.sh"
     pk = lambda: c16.gen_package(rng, wild=rng.chance(1, 2))
+
+    def pkn():
+        """a package whose targets / aliases list may hold a null element"""
+        d = pk()
+        for key in ("targets", "aliases"):
+            if rng.chance(1, 12):
+                d.setdefault(key, [])
+                d[key].insert(rng.below(len(d[key]) + 1), None)
+        return d
     scans = [(k, c, c16.LONG) for k in ("mk", "sh") for c in rng.sample(c16.SCAN_NASTIES, n // 10)]
     for _ in range(n // 5):
         d = pk()
+        d = dict(d, targets=[t for t in d["targets"] if t is not None] or [c16.gen_target(rng, "a", ["a"], False)],
+                 aliases=[a for a in d.get("aliases", []) if a is not None])     # the scanners render real targets only
         dm = c16.mk_projection(d)
         if dm is not None and rng.chance(1, 2):
             c = ("mk", b(c16.render_makefile(rng, dm)))
@@ -815,11 +834,11 @@ def gen_loader(rng, n):
         k = rng.below(10)
         globs = {p: (None if p == c16.BAD_GLOB or rng.chance(1, 25) else rng.sample(c16.FILES, rng.below(4))) for p in c16.IN_LIT + c16.IN_GLOB + c16.EXCL + [c16.BAD_GLOB]}
         if k < 5:
-            d = pk()
+            d = pkn()
             lines.append("enrich\t%s\t%s\t%s\t%s" % (hx(b(rng.choice(c16.PKG_PATHS))), c16.sx_package(d), c16.glob_table(d, globs), c16.dur_table(d)))
         elif k < 8:
             paths = rng.sample(c16.DET_DIRS, 1 + rng.below(3))
-            frags = [(p if not rng.chance(1, 8) else paths[0], pk()) for p in paths]
+            frags = [(p if not rng.chance(1, 8) else paths[0], pkn()) for p in paths]
             lines.append(c16.merge_line(frags, globs))
         else:
             lines.append("trim\t" + hx(b"".join(rng.choice(ws) for _ in range(rng.below(8)))))
@@ -870,8 +889,9 @@ def conv_loader(line, st):
 
     def pd(x):
         need(isinstance(x, list) and len(x) == 4 and isinstance(x[1], list) and isinstance(x[2], list))
-        return app("mkPD", s(x[0]), gl([td(t) for t in x[1]]), gl([(need(isinstance(a, list) and len(a) == 2), app("mkAD", s(a[0]), s(a[1])))[1] for a in x[2]]),
-                   optl(x[3]))
+        ad = lambda a: (need(isinstance(a, list) and len(a) == 2), app("mkAD", s(a[0]), s(a[1])))[1]
+        nullable = lambda g, e: "None" if e == "N" else "Some %s" % par(g(e))      # N = a null element of the list
+        return app("mkPD", s(x[0]), gl([nullable(td, t) for t in x[1]]), gl([nullable(ad, a) for a in x[2]]), optl(x[3]))
 
     def table(x, val):
         """Hashtbl.replace: the last row of a key wins"""
